@@ -926,3 +926,18 @@ func init() {
 		})
 	})
 }
+
+func init() {
+	extraIntrinsics = append(extraIntrinsics, func(p *Program) {
+		// number of goroutines (other than the caller) that have not finished
+		p.reg("verif_LiveThreads", func(ex *Exec, fr *Frame, args []Value) Value {
+			n := 0
+			for _, t := range ex.threads {
+				if !t.done && t != ex.cur {
+					n++
+				}
+			}
+			return mkConst(64, uint64(n))
+		})
+	})
+}
